@@ -58,7 +58,7 @@ def real_entries(jinja2, tree):
 
 
 ATOMS = ['_("a1")', 'gettext("a2 %(x)s")', 'ngettext("s1", "p1", n)', 'pgettext("cx", "m1")', 'npgettext("cx", "s2", "p2", 2)',
-         'gettext(v)', 'gettext("lit" ~ v)', '_("k", **kw)', 'gettext(*ar)', 'obj.gettext("attr")', 'gettext', 'other("zz")',
+         'gettext(v)', 'gettext("lit" ~ v)', '_("fo" ~ "ld")', 'gettext("a" + "b")', '_("x %s" % "y")', '_("k", **kw)', 'gettext(*ar)', 'obj.gettext("attr")', 'gettext', 'other("zz")',
          '_(_("inner"))', 'f(_("arg"), k=_("kwv"))', 'ngettext("s3", v, 1)', '_("a", "b", 3)', 'gettext("x", a=_("nested kw"))',
          '_(7)', 'gettext()', '_("dup")', '_("dup")']
 WRAPS = ["{{ %s }}", "{{ (%s)|upper }}", "{%% if %s %%}y{%% endif %%}", "{%% set q = %s %%}", "{%% for i in [%s] %%}{{ i }}{%% endfor %%}",
